@@ -50,9 +50,10 @@ func TestVerifC13(t *testing.T) {
 		c13EndpointStaleCreate(m)
 		c13EndpointMixed(m)
 		c13EndpointJanitor(m)
+		c13EndpointNegativeCacheExpiry(m)
 		m.Require("b_herd_rounds", "b_mixed_rounds", "b_deadwindow_rounds", "b_deadwindow_dead_endpoint_still_in_table", "b_hook_uep1", "b_hook_uep2", "b_stalecreate_replaced", "b_stalecreate_survived_with_traffic",
 			"b_calls_created", "b_calls_reused", "b_calls_dial_error", "b_calls_negative_cache", "b_mixed_invalidations",
-			"b_janitor_identity_judged", "b_janitor_idle_endpoints_closed_by_janitor", "b_non_packet_conns")
+			"b_negexp_marker_expired_in_place", "b_janitor_identity_judged", "b_janitor_idle_endpoints_closed_by_janitor", "b_non_packet_conns")
 	}
 	if want("c") {
 		c13GenerationsSequential(m)
